@@ -428,5 +428,5 @@ L_Flush == \A c \in CallIds : \A i \in 1 .. 3 : [](InBatch(c, i) => <>BatchDone(
 \* C09: Close returns
 L_Close == (closeState = "begun") ~> (closeState = "returned")
 \* every call returns
-L_CallsReturn == \A c \in CallIds : [](InCalls(c) => <>(cpc[c] = "returned"))
+L_CallsReturn == \A c \in CallIds : [](InCalls(c) => <>(InCalls(c) /\ cpc[c] = "returned"))
 =============================================================================
